@@ -1422,9 +1422,14 @@ def _strip_surrogates(spec: Dict[str, Any]) -> None:
 
 
 def gen_ttf(rng: random.Random) -> Dict[str, Any]:
-    spec, interesting = gen_ttf_spec(rng)
-    _strip_surrogates(spec)
-    c2g = ttf07.char2gid(spec)
+    while True:
+        spec, interesting = gen_ttf_spec(rng)
+        _strip_surrogates(spec)
+        try:
+            c2g = ttf07.char2gid(spec)
+            break
+        except ValueError:
+            continue    # two Unicode subtables that disagree on a character: ambiguous, draw another font
     gids = sorted(set(c2g.values()))
     if len(gids) > 150:
         gids = rng.sample(gids, 150)
